@@ -47,3 +47,17 @@ Definition znot_equal (o : opts) (a b : zparr) := @pnot_equal ZO o a b.
 Definition zselect (code : cmp_code) (o : opts) (a b : zparr) : res zparr := @pselect ZO code o a b.
 Definition zlead_exponent g r (p : zparr) := @lead_exponent ZO g r p.
 Definition zlead_coefficient g r (p : zparr) : seq Z := @lead_coefficient ZO g r p.
+
+(* ---- queries (C19) -------------------------------------------------------------------------- *)
+From NP Require Import Query.
+Inductive nexpect := NOk of seq nat & seq Z | NErr of err.
+Definition chk_num (r : res (seq nat * seq Z)) (e : nexpect) : bool :=
+  match r, e with
+  | Ok (s, v), NOk s' v' => (s == s') && (v == v')
+  | Err a, NErr b => err_eqb a b
+  | _, _ => false
+  end.
+Definition zisconstant (p : zparr) : bool := @isconstant ZR p.
+Definition ztonumpy (p : zparr) := @tonumpy ZR p.
+Definition zdecompose (p : zparr) : zparr := @decompose ZR p.
+Definition zset_dimensions (o : opts) (p : zparr) (d : nat) : res zparr := @set_dimensions ZR o p d.
